@@ -190,9 +190,32 @@ Definition apply_block (fes : list oentry) (le : lentry) : list oentry :=
     | Some n =>
         if spec_hides (e_type e) then filter (fun oe => negb (origin_is n oe)) fes
         else update_origin n (fun old => merge_entries old e) fes
-    | None => fes ++ [(None, e)]
+    | None => if spec_hides (e_type e) then fes else fes ++ [(None, e)]   (* nothing there to hide *)
     end
   else fes ++ [(None, e)].
 
+(* A list of blocks, in order.  Later blocks see what earlier ones did; once a
+   block has hidden ./name, every later block for the same path is without
+   effect (hidden stays hidden).  The second component is the set of selectors
+   hidden so far. *)
+Definition apply_block_h (st : list oentry * list str) (le : lentry) : list oentry * list str :=
+  let e := le_entry le in
+  if le_merge le then
+    if mem_str (e_selector e) (snd st) then st
+    else match find_target (fst st) (e_selector e) with
+         | Some n =>
+             if spec_hides (e_type e)
+             then (filter (fun oe => negb (origin_is n oe)) (fst st), e_selector e :: snd st)
+             else (update_origin n (fun old => merge_entries old e) (fst st), snd st)
+         | None => if spec_hides (e_type e) then st             (* nothing there to hide *)
+                   else (fst st ++ [(None, e)], snd st)
+         end
+  else (fst st ++ [(None, e)], snd st).
+
+(* `dropped`: the selectors of the files their .cap file has hidden already *)
+Definition apply_entries_from (dropped : list str) (ls : list lentry) (fes : list oentry) : list oentry :=
+  fst (fold_left apply_block_h ls (fes, dropped)).
+Definition apply_entries (ls : list lentry) (fes : list oentry) : list oentry := apply_entries_from [] ls fes.
+
 Definition apply_blocks (base dirsel : str) (bs : list sblock) (fes : list oentry) : list oentry :=
-  fold_left apply_block (map (spec_lentry base dirsel) bs) fes.
+  apply_entries (map (spec_lentry base dirsel) bs) fes.
